@@ -115,3 +115,12 @@ reg('C19', engine='llsym',
     note='Trusted: clang IR, llsym semantics, CPython contracts (PySlice_Unpack/AdjustIndices, buffer export '
          'counting) in vf/pystubs.py. Buffer size <= 3 (5) bytes; b_buffer_new size derivation not covered.',
     technique='symbolic execution of LLVM IR, SMT (z3 bit-vectors)')
+
+reg('C15', engine='llsym',
+    text='Bounded symbolic execution of the real string->array conversion and ffi.string paths for char, char16_t '
+         'and char32_t with every code point symbolic (all storage kinds of CPython str, lone surrogates, astral '
+         'characters) and symbolic previous array content: units == UTF-16/32 encoding, exactly one terminator when '
+         'shorter, nothing past it touched, too-long rejected untouched, decode(encode(s)) == s.',
+    note='Trusted: clang IR, llsym semantics, CPython str layout/contracts in vf/pystubs.py. Strings <= 2 (3) code '
+         'points, arrays <= 4 (5) elements.',
+    technique='symbolic execution of LLVM IR, SMT (z3 bit-vectors)')
